@@ -458,3 +458,61 @@ def runSearches (s : Ev) : List SCall → Ev × List Stop
     (rr.1, r.2 :: rr.2)
 
 end DH.Timeout
+
+/-! ### checker over observed status logs (the L3 oracle; proved equivalent to `Spec` in `Props/C14.lean`)
+
+One `JobObs` per submitted job, in submission order (index = job id), built by the harness from what
+the implementation did: the sequence of status writes, the tick it started / returned, the natural end
+of its run-function, the deadline that was in effect when it started (`none`: no timeout requested),
+whether its last status read was CANCELLING, whether it reads the status again after starting, whether
+one of its instants coincides with the deadline (`tie`: either outcome is accepted), whether it was
+reported by a gather, whether the reported value is the one it returned. -/
+
+namespace DH.Timeout
+open Status
+
+structure JobObs where
+  log : List Status
+  start : Nat
+  ret : Nat
+  natEnd : Nat
+  deadline : Option Nat
+  saw : Bool
+  pollsAgain : Bool
+  tie : Bool
+  gathered : Bool
+  valueKept : Bool
+  deriving Repr
+
+structure Obs where
+  jobs : List JobObs
+  results : List Nat      -- ids in the results table / `jobs_done`, in order
+  complete : Bool         -- the scenario ended with a returned `search()` / a final `gather("ALL")`
+  deriving Repr
+
+def logDone : List Status := [ready, running, done]
+def logCancelled : List Status := [ready, running, cancelling, cancelled]
+
+def monotoneB (l : List Status) : Bool :=
+  (!l.isEmpty && (l.isPrefixOf logDone || l.isPrefixOf logCancelled)) ||
+  l == [ready, cancelled] || l == [ready, running, cancelled]
+
+def terminalB (l : List Status) : Bool :=
+  l.getLast? == some done || l.getLast? == some cancelled
+
+def classifiedB (j : JobObs) : Bool :=
+  match j.deadline with
+  | none => j.log == logDone && !j.saw
+  | some c =>
+    (!decide (c < j.start) || (j.log == logCancelled && (!j.pollsAgain || j.saw))) &&
+    (!(decide (j.start < c) && decide (c < j.natEnd)) || (j.log == logCancelled && j.saw)) &&
+    (!(decide (j.ret < c) && decide (j.natEnd < c)) || (j.log == logDone && !j.saw))
+
+def checkStatusLog (o : Obs) : Bool :=
+  o.jobs.all (fun j => monotoneB j.log) &&
+  (decide o.results.Nodup && o.results.all (fun i => decide (i < o.jobs.length))) &&
+  (!o.complete || (List.range o.jobs.length).all (fun i => o.results.contains i)) &&
+  o.results.all (fun i => match o.jobs[i]? with | some j => terminalB j.log | none => true) &&
+  o.jobs.all (fun j => !j.gathered || j.tie || (classifiedB j && j.valueKept))
+
+end DH.Timeout
